@@ -39,6 +39,15 @@ CHECKS["C01"] = dict(
     note="Trusts the ~400-line reference interpreter (itself validated by 0 disagreements on the unchanged tree and by seeded mutants), Hypothesis, CPython float arithmetic.",
     design="DESIGN.md section 4 C01")
 
+CHECKS["C02"] = dict(
+    technique="Hypothesis-generated pipeline programs biased to flow hazards; implication oracle (clean inspection + required keys => no flow failure, classified by reference model and real traceback) and per-node fact oracle against a recording transport and the reference interpreter's parameter log",
+    text=("Generated-input search (9.6k cases quick, 70k thorough): every generated configuration is inspected and validated; accepted "
+          "ones are executed with exactly the reported required keys and with a superset. Any unresolved/missing/deleted key, unknown "
+          "parameter or type-gate failure after a clean inspection is a violation; per-node created/suppressed keys, parameter origins "
+          "and unknown-parameter names are compared with the observed run. Sampling; no claim beyond explored cases."),
+    note="Trusts the reference interpreter (validated by C01), the recording transport, and the first-node-payload guard (inspection cannot know the caller's payload).",
+    design="DESIGN.md section 4 C02")
+
 NOT_YET = {}
 
 
